@@ -105,10 +105,38 @@ func runC10(c *fw.Ctx, idx int) fw.Result {
 			ref = ref[:W]
 		}
 	}
+	wide := idx%50 == 13
+	if wide {
+		// genome scale: a failed (all-N) sample, a low-coverage consensus with most columns masked in
+		// long blocks and substitutions in the stretches between them, and ordinary genomes
+		W = r.Range(12000, 33000)
+		ref = gen.Genome(r, W)
+		n = r.Range(3, 5)
+		res.Count("genome_scale_cases", 1)
+	}
 	var recs []gen.FastaRec
 	for i := 0; i < n; i++ {
 		id, desc := gen.MakeHeader(r, i)
 		recs = append(recs, gen.FastaRec{ID: id, Desc: desc, Seq: ambigRunSeq(r, ref)})
+	}
+	if wide {
+		recs[0].Seq = strings.Repeat("N", W)
+		b := []byte(ref)
+		for p := 0; p < W; {
+			run := r.Range(300, 2500)
+			for i := p; i < p+run && i < W; i++ {
+				b[i] = 'N'
+			}
+			p += run
+			clear := r.Range(50, 600)
+			for i := p; i < p+clear && i < W; i++ {
+				if r.Chance(0.02) {
+					b[i] = gen.OtherBase(r, ref[i])
+				}
+			}
+			p += clear
+		}
+		recs[1].Seq = string(b)
 	}
 	if n >= 150 && r.Chance(0.5) {
 		// a slow first record: every column a SNP or an ambiguity run boundary
